@@ -5,7 +5,7 @@
   get_interpolation, walk_two_vertices of forsys/myosin.py).
 
   Reading of the clause "equal for all interfaces of a uniformly bright image": with integration the
-  statistic is (number of band positions)·k / length, which is not constant; the clause is stated for
+  statistic is (number of band pixels)·k / length, which is not constant; the clause is stated for
   the non-integrated window statistic (`uniform_equal`).
 -/
 import ForsysModel.Model.Myosin
@@ -82,32 +82,50 @@ theorem interp_chord (a0 b0 a1 b1 v : Int) (h : a0 ≠ a1) :
 theorem mem_band (prm : Params) (verts : List Pt) (p : Pt) :
     p ∈ band prm verts ↔
       ∃ s ∈ consec (verts.map (place prm)), ∃ c ∈ walkCentres (ceilPt s.1) (ceilPt s.2),
-        p ∈ getLayerElements c prm.layers := by
+        ∃ q ∈ getLayerElements c prm.layers, p = toPixel q := by
   exact mem_band' prm verts p
 
-/-- band = set: no *position* is summed twice -/
+/-- band = set: no element is summed twice -/
 theorem band_nodup (prm : Params) (verts : List Pt) : (band prm verts).Nodup := by
   exact band_nodup' prm verts
 
-/- FULL STATEMENT (false on the current code, see `band_pixels_nodup_witness`):
-     theorem band_pixels_nodup (prm : Params) (verts : List Pt) : ((band prm verts).map pixelOf).Nodup
-   The set of `get_interpolation` is a set of float positions, not of pixels: two positions with
-   different fractional parts are read from the same pixel, so a pixel can enter the sum more than once. -/
-/-- no *pixel* is summed twice provided every band position has integer coordinates
-    (polylines whose ceiled segments are axis-parallel or diagonal) -/
-theorem band_pixels_nodup_partial (prm : Params) (verts : List Pt)
-    (h : ∀ p ∈ band prm verts, ((p.x.floor : Int) : Rat) = p.x ∧ ((p.y.floor : Int) : Rat) = p.y) :
-    ((band prm verts).map pixelOf).Nodup := by
-  exact band_pixels_nodup_partial' prm verts h
+/-- the band elements are pixels: `getpixel` reads each from itself … -/
+theorem pixelOf_toPixel (q : Pt) : pixelOf (toPixel q) = pixelOf q := by
+  exact pixelOf_toPixel' q
 
-/-- counterexample to the full statement: the segment (2,2)→(8,5) with one layer
-    (46 positions, 28 pixels) -/
-theorem band_pixels_nodup_witness :
-    ¬ ((band { layers := 1 } [⟨2, 2⟩, ⟨8, 5⟩]).map pixelOf).Nodup := by
+/-- … and no *pixel* is summed twice (unconditional since repair 5a78257 of defect D22) -/
+theorem band_pixels_nodup (prm : Params) (verts : List Pt) : ((band prm verts).map pixelOf).Nodup := by
+  exact band_pixels_nodup' prm verts
+
+/-- the repair changed multiplicities only: the band covers the same pixels as before -/
+theorem band_pixels_eq_upstream (prm : Params) (verts : List Pt) (xy : Int × Int) :
+    xy ∈ (band prm verts).map pixelOf ↔ xy ∈ (bandUpstream prm verts).map pixelOf := by
+  exact band_pixels_eq_upstream' prm verts xy
+
+/-! #### the band before repair 5a78257 (defect D22, corpus/C17/fractional_band.json)
+    FULL STATEMENT (false for the upstream code, see the witness):
+      theorem bandUpstream_pixels_nodup (prm : Params) (verts : List Pt) : ((bandUpstream prm verts).map pixelOf).Nodup
+    The upstream set held float positions, not pixels: two positions with different fractional parts are read from
+    the same pixel, so a pixel could enter the sum more than once. -/
+
+/-- upstream: no pixel summed twice only if every band position has integer coordinates
+    (polylines whose ceiled segments are axis-parallel or diagonal) -/
+theorem bandUpstream_pixels_nodup_partial (prm : Params) (verts : List Pt)
+    (h : ∀ p ∈ bandUpstream prm verts, ((p.x.floor : Int) : Rat) = p.x ∧ ((p.y.floor : Int) : Rat) = p.y) :
+    ((bandUpstream prm verts).map pixelOf).Nodup := by
+  exact bandUpstream_pixels_nodup_partial' prm verts h
+
+/-- counterexample for the upstream band: the segment (2,2)→(8,5) with one layer (46 positions, 28 pixels) -/
+theorem bandUpstream_pixels_nodup_witness :
+    ¬ ((bandUpstream { layers := 1 } [⟨2, 2⟩, ⟨8, 5⟩]).map pixelOf).Nodup := by
   decide +kernel
 
-/-! non-vacuity of the hypothesis of `band_pixels_nodup_partial`: an L-shaped axis-parallel polyline, two layers -/
-example : ∀ p ∈ band { layers := 2 } [⟨3, 3⟩, ⟨7, 3⟩, ⟨7, 9⟩],
+/-- the same input on the repaired band: 28 elements -/
+theorem band_witness_repaired : (band { layers := 1 } [⟨2, 2⟩, ⟨8, 5⟩]).length = 28 := by
+  decide +kernel
+
+/-! non-vacuity of the hypothesis of `bandUpstream_pixels_nodup_partial`: an L-shaped axis-parallel polyline, two layers -/
+example : ∀ p ∈ bandUpstream { layers := 2 } [⟨3, 3⟩, ⟨7, 3⟩, ⟨7, 9⟩],
     ((p.x.floor : Int) : Rat) = p.x ∧ ((p.y.floor : Int) : Rat) = p.y := by
   decide +kernel
 
